@@ -840,9 +840,13 @@ type c10Ctx struct {
 	blkAddr  uintptr
 	strAddr  uintptr
 	seen     map[string]bool // signatures already reported for this case
+	session  bool            // calls belong to one boot session: no SetInfoPtr / restore / cache reset in between
 }
 
 func (x *c10Ctx) viol(sig, format string, a ...interface{}) {
+	if x.session {
+		sig = "session:" + sig
+	}
 	if x.seen[sig] {
 		return
 	}
@@ -910,15 +914,21 @@ func (x *c10Ctx) where(addr uintptr) string {
 // call restores the pristine block bytes (VisitMemRegions normalises types in
 // place), resets the package state and runs f with faults turned into panics.
 func (x *c10Ctx) call(fn string, f func()) bool {
-	copy(vlib.BytesAt(x.blkAddr, len(x.data)), x.data)
-	cmdLineKV = nil
-	SetInfoPtr(x.blkAddr)
+	if !x.session {
+		copy(vlib.BytesAt(x.blkAddr, len(x.data)), x.data)
+		cmdLineKV = nil
+		SetInfoPtr(x.blkAddr)
+	} else {
+		c10Count(x.run, "session_calls", 1)
+	}
 	c10Count(x.run, "calls_"+fn, 1)
 	c10CallName.Store(fn)
 	atomic.StoreInt64(&c10CallStart, time.Now().UnixNano())
 	pv, st := vlib.Protect(f)
 	atomic.StoreInt64(&c10CallStart, 0)
-	cmdLineKV = nil
+	if !x.session {
+		cmdLineKV = nil
+	}
 	if pv == nil {
 		return true
 	}
@@ -978,18 +988,24 @@ func (x *c10Ctx) checkAll() {
 		wantRegions = t.mm.regions
 		stopAt = t.mm.stopAt
 	}
-	var got []c10GotRegion
-	if x.call("VisitMemRegions", func() {
-		VisitMemRegions(func(e *MemoryMapEntry) bool {
-			got = append(got, c10GotRegion{e.PhysAddress, e.Length, uint32(e.Type)})
-			return len(got) < 4096
-		})
-	}) {
-		x.checkRegions("VisitMemRegions", got, wantRegions, len(wantRegions))
-	}
+	var secs []func()
+	secs = append(secs, func() {
+		var got []c10GotRegion
+		if x.call("VisitMemRegions", func() {
+			VisitMemRegions(func(e *MemoryMapEntry) bool {
+				got = append(got, c10GotRegion{e.PhysAddress, e.Length, uint32(e.Type)})
+				return len(got) < 4096
+			})
+		}) {
+			x.checkRegions("VisitMemRegions", got, wantRegions, len(wantRegions))
+		}
+	})
 	// --- memory map, visitor stops at the stopAt-th region
-	if stopAt > 0 {
-		got = got[:0]
+	secs = append(secs, func() {
+		if stopAt <= 0 {
+			return
+		}
+		var got []c10GotRegion
 		if x.call("VisitMemRegions(stop)", func() {
 			VisitMemRegions(func(e *MemoryMapEntry) bool {
 				got = append(got, c10GotRegion{e.PhysAddress, e.Length, uint32(e.Type)})
@@ -1002,7 +1018,7 @@ func (x *c10Ctx) checkAll() {
 				c10Count(run, "early_stops_before_last_region", 1)
 			}
 		}
-	}
+	})
 
 	// --- ELF sections
 	type gotSec struct {
@@ -1025,71 +1041,75 @@ func (x *c10Ctx) checkAll() {
 			wantSecs = append(wantSecs, gotSec{s.name, uint32(s.flags), addr, s.size})
 		}
 	}
-	var gotSecs []gotSec
-	if x.call("VisitElfSections", func() {
-		VisitElfSections(func(name string, flags ElfSectionFlag, address uintptr, size uint64) {
-			if len(gotSecs) < 4096 {
-				gotSecs = append(gotSecs, gotSec{string(append([]byte(nil), name...)), uint32(flags), uint64(address), size})
+	secs = append(secs, func() {
+		var gotSecs []gotSec
+		if x.call("VisitElfSections", func() {
+			VisitElfSections(func(name string, flags ElfSectionFlag, address uintptr, size uint64) {
+				if len(gotSecs) < 4096 {
+					gotSecs = append(gotSecs, gotSec{string(append([]byte(nil), name...)), uint32(flags), uint64(address), size})
+				}
+			})
+		}) {
+			if len(gotSecs) != len(wantSecs) {
+				x.viol("section-count", "VisitElfSections: %d callbacks, the block encodes %d non-empty section(s)", len(gotSecs), len(wantSecs))
 			}
-		})
-	}) {
-		if len(gotSecs) != len(wantSecs) {
-			x.viol("section-count", "VisitElfSections: %d callbacks, the block encodes %d non-empty section(s)", len(gotSecs), len(wantSecs))
+			for i := 0; i < len(gotSecs) && i < len(wantSecs); i++ {
+				g, w := gotSecs[i], wantSecs[i]
+				if g.name != w.name {
+					x.viol("section-name", "VisitElfSections: non-empty section %d reported with name %q, encoded %q", i, g.name, w.name)
+					break
+				}
+				if g.flags != w.flags {
+					x.viol("section-flags", "VisitElfSections: section %d (%q) flags %#x, encoded %#x", i, w.name, g.flags, w.flags)
+					break
+				}
+				if g.addr != w.addr || g.size != w.size {
+					x.viol("section-extent", "VisitElfSections: section %d (%q) reported (addr %#x, size %#x), encoded (addr %#x, size %#x)", i, w.name, g.addr, g.size, w.addr, w.size)
+					break
+				}
+				c10Count(run, "sections_compared", 1)
+				c10Count(run, "section_name_bytes_compared", int64(len(w.name)))
+			}
 		}
-		for i := 0; i < len(gotSecs) && i < len(wantSecs); i++ {
-			g, w := gotSecs[i], wantSecs[i]
-			if g.name != w.name {
-				x.viol("section-name", "VisitElfSections: non-empty section %d reported with name %q, encoded %q", i, g.name, w.name)
-				break
-			}
-			if g.flags != w.flags {
-				x.viol("section-flags", "VisitElfSections: section %d (%q) flags %#x, encoded %#x", i, w.name, g.flags, w.flags)
-				break
-			}
-			if g.addr != w.addr || g.size != w.size {
-				x.viol("section-extent", "VisitElfSections: section %d (%q) reported (addr %#x, size %#x), encoded (addr %#x, size %#x)", i, w.name, g.addr, g.size, w.addr, w.size)
-				break
-			}
-			c10Count(run, "sections_compared", 1)
-			c10Count(run, "section_name_bytes_compared", int64(len(w.name)))
-		}
-	}
+	})
 
 	// --- framebuffer
 	var wantFB *c10FB
 	if t := b.first("fb"); t != nil {
 		wantFB = t.fb
 	}
-	x.call("GetFramebufferInfo", func() {
-		fi := GetFramebufferInfo()
-		if wantFB == nil {
-			if fi != nil {
-				x.viol("fb-not-absent", "GetFramebufferInfo returned a description although the block has no framebuffer tag")
+	secs = append(secs, func() {
+		x.call("GetFramebufferInfo", func() {
+			fi := GetFramebufferInfo()
+			if wantFB == nil {
+				if fi != nil {
+					x.viol("fb-not-absent", "GetFramebufferInfo returned a description although the block has no framebuffer tag")
+				}
+				return
 			}
-			return
-		}
-		if fi == nil {
-			x.viol("fb-missing", "GetFramebufferInfo returned nil, the block has a framebuffer tag")
-			return
-		}
-		// field-by-field: the Go struct is larger than the common part of the tag
-		if fi.PhysAddr != wantFB.addr || fi.Pitch != wantFB.pitch || fi.Width != wantFB.width || fi.Height != wantFB.height ||
-			fi.Bpp != wantFB.bpp || uint8(fi.Type) != wantFB.typ {
-			x.viol("fb-fields", "framebuffer reported (addr %#x pitch %d %dx%d bpp %d type %d), encoded (addr %#x pitch %d %dx%d bpp %d type %d)",
-				fi.PhysAddr, fi.Pitch, fi.Width, fi.Height, fi.Bpp, fi.Type, wantFB.addr, wantFB.pitch, wantFB.width, wantFB.height, wantFB.bpp, wantFB.typ)
-			return
-		}
-		ci := fi.RGBColorInfo()
-		if wantFB.typ != 1 {
-			if ci != nil {
-				x.viol("fb-rgb-for-non-rgb", "RGBColorInfo is non-nil for framebuffer type %d", wantFB.typ)
+			if fi == nil {
+				x.viol("fb-missing", "GetFramebufferInfo returned nil, the block has a framebuffer tag")
+				return
 			}
-		} else if ci == nil {
-			x.viol("fb-rgb-missing", "RGBColorInfo is nil for an RGB framebuffer")
-		} else if g := [6]uint8{ci.RedPosition, ci.RedMaskSize, ci.GreenPosition, ci.GreenMaskSize, ci.BluePosition, ci.BlueMaskSize}; g != wantFB.rgb {
-			x.viol("fb-rgb-layout", "RGB layout reported %v, encoded %v (red pos,size, green pos,size, blue pos,size)", g, wantFB.rgb)
-		}
-		c10Count(run, "framebuffers_compared", 1)
+			// field-by-field: the Go struct is larger than the common part of the tag
+			if fi.PhysAddr != wantFB.addr || fi.Pitch != wantFB.pitch || fi.Width != wantFB.width || fi.Height != wantFB.height ||
+				fi.Bpp != wantFB.bpp || uint8(fi.Type) != wantFB.typ {
+				x.viol("fb-fields", "framebuffer reported (addr %#x pitch %d %dx%d bpp %d type %d), encoded (addr %#x pitch %d %dx%d bpp %d type %d)",
+					fi.PhysAddr, fi.Pitch, fi.Width, fi.Height, fi.Bpp, fi.Type, wantFB.addr, wantFB.pitch, wantFB.width, wantFB.height, wantFB.bpp, wantFB.typ)
+				return
+			}
+			ci := fi.RGBColorInfo()
+			if wantFB.typ != 1 {
+				if ci != nil {
+					x.viol("fb-rgb-for-non-rgb", "RGBColorInfo is non-nil for framebuffer type %d", wantFB.typ)
+				}
+			} else if ci == nil {
+				x.viol("fb-rgb-missing", "RGBColorInfo is nil for an RGB framebuffer")
+			} else if g := [6]uint8{ci.RedPosition, ci.RedMaskSize, ci.GreenPosition, ci.GreenMaskSize, ci.BluePosition, ci.BlueMaskSize}; g != wantFB.rgb {
+				x.viol("fb-rgb-layout", "RGB layout reported %v, encoded %v (red pos,size, green pos,size, blue pos,size)", g, wantFB.rgb)
+			}
+			c10Count(run, "framebuffers_compared", 1)
+		})
 	})
 
 	// --- command line
@@ -1097,65 +1117,88 @@ func (x *c10Ctx) checkAll() {
 	if t := b.first("cmdline"); t != nil {
 		wantCmd = t.cmd
 	}
-	var kv map[string]string
-	if x.call("GetBootCmdLine", func() {
-		m := GetBootCmdLine()
-		kv = make(map[string]string, len(m))
-		for k, v := range m {
-			kv[k] = v
+	secs = append(secs, func() {
+		var kv map[string]string
+		if x.call("GetBootCmdLine", func() {
+			m := GetBootCmdLine()
+			kv = make(map[string]string, len(m))
+			for k, v := range m {
+				kv[k] = v
+			}
+		}) {
+			if wantCmd == nil {
+				if len(kv) != 0 {
+					x.viol("cmdline-not-absent", "GetBootCmdLine returned %d entries although the block has no command-line tag: %q", len(kv), kv)
+				}
+			} else {
+				for _, k := range c10SortedKeys(wantCmd.want) {
+					vals := wantCmd.want[k]
+					if wantCmd.free[k] {
+						continue
+					}
+					g, ok := kv[k]
+					if !ok {
+						x.viol("cmdline-missing-key", "command line %q: key %q missing from %q", wantCmd.text, k, kv)
+						break
+					}
+					pos := -1
+					for i, v := range vals {
+						if v == g {
+							pos = i
+						}
+					}
+					if pos < 0 {
+						x.viol("cmdline-value", "command line %q: key %q has value %q, acceptable %q", wantCmd.text, k, g, vals)
+						break
+					}
+					if len(vals) > 1 && vals[0] != vals[len(vals)-1] {
+						switch pos {
+						case len(vals) - 1:
+							c10Count(run, "cmdline_repeated_key_last_wins", 1)
+						case 0:
+							c10Count(run, "cmdline_repeated_key_first_wins", 1)
+						default:
+							c10Count(run, "cmdline_repeated_key_middle_wins", 1)
+						}
+					}
+					c10Count(run, "cmdline_entries_compared", 1)
+				}
+				gotKeys := make([]string, 0, len(kv))
+				for k := range kv {
+					gotKeys = append(gotKeys, k)
+				}
+				sort.Strings(gotKeys)
+				for _, k := range gotKeys {
+					if _, ok := wantCmd.want[k]; !ok && !wantCmd.free[k] {
+						x.viol("cmdline-extra-key", "command line %q: unexpected key %q (value %q)", wantCmd.text, k, kv[k])
+						break
+					}
+				}
+				c10Count(run, "cmdlines_compared", 1)
+			}
 		}
-	}) {
-		if wantCmd == nil {
-			if len(kv) != 0 {
-				x.viol("cmdline-not-absent", "GetBootCmdLine returned %d entries although the block has no command-line tag: %q", len(kv), kv)
-			}
-		} else {
-			for _, k := range c10SortedKeys(wantCmd.want) {
-				vals := wantCmd.want[k]
-				if wantCmd.free[k] {
-					continue
-				}
-				g, ok := kv[k]
-				if !ok {
-					x.viol("cmdline-missing-key", "command line %q: key %q missing from %q", wantCmd.text, k, kv)
-					break
-				}
-				pos := -1
-				for i, v := range vals {
-					if v == g {
-						pos = i
-					}
-				}
-				if pos < 0 {
-					x.viol("cmdline-value", "command line %q: key %q has value %q, acceptable %q", wantCmd.text, k, g, vals)
-					break
-				}
-				if len(vals) > 1 && vals[0] != vals[len(vals)-1] {
-					switch pos {
-					case len(vals) - 1:
-						c10Count(run, "cmdline_repeated_key_last_wins", 1)
-					case 0:
-						c10Count(run, "cmdline_repeated_key_first_wins", 1)
-					default:
-						c10Count(run, "cmdline_repeated_key_middle_wins", 1)
-					}
-				}
-				c10Count(run, "cmdline_entries_compared", 1)
-			}
-			gotKeys := make([]string, 0, len(kv))
-			for k := range kv {
-				gotKeys = append(gotKeys, k)
-			}
-			sort.Strings(gotKeys)
-			for _, k := range gotKeys {
-				if _, ok := wantCmd.want[k]; !ok && !wantCmd.free[k] {
-					x.viol("cmdline-extra-key", "command line %q: unexpected key %q (value %q)", wantCmd.text, k, kv[k])
-					break
-				}
-			}
-			c10Count(run, "cmdlines_compared", 1)
+	})
+
+	// every accessor from a fresh SetInfoPtr ...
+	for _, f := range secs {
+		f()
+	}
+	// ... and as the kernel uses them: one SetInfoPtr, then the accessors in any order and more than once,
+	// each answer still being what the block encodes (package-level state such as caches must not leak
+	// from one lookup into the next)
+	copy(vlib.BytesAt(x.blkAddr, len(x.data)), x.data)
+	cmdLineKV = nil
+	SetInfoPtr(x.blkAddr)
+	x.session = true
+	r := x.c.R.Fork(0x5e55)
+	for round := 0; round < 2; round++ {
+		for _, i := range r.Perm(len(secs)) {
+			secs[i]()
 		}
 	}
+	x.session = false
+	cmdLineKV = nil
+	c10Count(run, "boot_sessions", 1)
 }
 
 // c10RunBlock checks one block in both placements and records the evidence.
